@@ -429,6 +429,155 @@ def rule_tb2(ctx, prog, rid, fns, control=False):
     return bad if control else n
 
 
+FMT_VSINK = {'vprintf': 0, 'vfprintf': 1, 'vsnprintf': 2, 'vsprintf': 1}
+FMT_EXEMPT = {
+    ('EdgeEnv::LookupVariable', 'Fatal'):
+        'the text is "cycle in rule variables: " plus variable *names*; the manifest lexer admits only [a-zA-Z0-9_.-] in a '
+        'variable name (Lexer::ReadIdent / the $-escapes of ReadEvalString), so it cannot contain a conversion',
+}
+
+
+def format_functions(prog):
+    """{function id: index of its format parameter}: functions that hand one of their own parameters on as the format of
+    a v*printf / printf-like callee (fixpoint), plus the virtual declarations their overriders implement."""
+    fmtparam = {}
+
+    def pidx(f, d):
+        d = strip(d)
+        if isinstance(d, dict) and d.get('k') == 'var' and d.get('vk') == 'param':
+            for i, p in enumerate(f.params or []):
+                if p['n'] == d['n']:
+                    return i
+        return None
+    changed = True
+    while changed:
+        changed = False
+        for f in prog.functions.values():
+            if f.id in fmtparam:
+                continue
+            for e in f.events('call'):
+                idx = fmt_index(prog, e, fmtparam)
+                if idx is None or idx >= len(e.get('args') or []):
+                    continue
+                pi = pidx(f, e['args'][idx])
+                if pi is not None:
+                    fmtparam[f.id] = pi
+                    changed = True
+                    break
+    return fmtparam
+
+
+def fmt_index(prog, e, fmtparam):
+    nm = e.get('name') or ''
+    if nm in FMT_VSINK:
+        return FMT_VSINK[nm]
+    if e.get('fmt') is not None:
+        return e['fmt']
+    if e.get('fn') in fmtparam:
+        return fmtparam[e['fn']]
+    for o in prog.overriders(e.get('fn')) if e.get('fn') else ():
+        if o in fmtparam:
+            return fmtparam[o]
+    return None
+
+
+def rule_fmt(ctx, prog, rid, fns, control=False):
+    """The format argument of every printf-like call is program text: a string literal (or a choice between literals,
+    or the caller's own format parameter).  Bytes read from a manifest, depfile, log or environment never become a format."""
+    from rules import deep_resolve
+    fmtparam = format_functions(prog)
+
+    def literal(f, d, depth=0):
+        d = strip(d)
+        while isinstance(d, dict) and d.get('k') == 'cast':
+            d = strip(d.get('e'))
+        if not isinstance(d, dict) or depth > 4:
+            return False
+        if d.get('k') == 'str':
+            return True
+        if d.get('k') == 'cond':
+            return literal(f, d['t'], depth + 1) and literal(f, d['f'], depth + 1)
+        if d.get('k') == 'var' and d.get('vk') == 'param':
+            return fmtparam.get(f.id) is not None and (f.params or [])[fmtparam[f.id]]['n'] == d['n']
+        if d.get('k') == 'var' and d.get('vk') in ('global', 'static'):
+            ty = d.get('ty') or ''
+            return ty.startswith('const char[') or ty.replace(' ', '') in ('constchar*const',)      # constant program text
+        if d.get('k') == 'var':
+            vals = [x.get('r') if x.get('k') != 'decl' else x.get('init') for x in f.stores()
+                    if strip(x.get('l') or {'k': 'var', 'n': x.get('n')}).get('n') == d['n'] and
+                    strip(x.get('l') or {'k': 'var', 'n': x.get('n')}).get('k') == 'var']
+            return bool(vals) and all(v is not None and literal(f, v, depth + 1) for v in vals)
+        return False
+    n = bad = 0
+    for f in fns:
+        for e in f.events('call'):
+            idx = fmt_index(prog, e, fmtparam)
+            if idx is None or idx >= len(e.get('args') or []):
+                continue
+            n += 1
+            a = e['args'][idx]
+            ok = literal(f, a)
+            why = ''
+            if not ok and (f.name, e.get('name')) in FMT_EXEMPT and not control:
+                ok = True
+                why = ' (exempt: %s)' % FMT_EXEMPT[(f.name, e.get('name'))]
+            if control:
+                bad += 0 if ok else 1
+                continue
+            ctx.check(rid, ok, f.name, 'format:not-a-literal:%s' % e.get('name'), f.where(e),
+                      'the format of %s is program text, not data: %s%s' % (e.get('name'), dstr(a)[:60], why))
+    return bad if control else n
+
+
+STREAM_READS = ('fread', 'read', 'fgets', 'fgetc', 'getc', 'recv', 'pread')
+READ_LOOP_EXEMPT = {}
+
+
+def rule_read_loops(ctx, prog, rid, fns, control=False):
+    """A loop that reads from a stream observes what the read returned: on every way from one execution of the read
+    call round to the next there is a branch on the read's result (the call itself, or the variable it was stored in) or
+    on ferror().  `while (!feof(f))` alone never ends on a read error: the error is not end-of-file and the read keeps
+    returning 0."""
+    n = bad = 0
+    for f in fns:
+        for e in f.events('call'):
+            if e.get('name') not in STREAM_READS:
+                continue
+            # is the call on a cycle at all?
+            if f.find_path(e, lambda x: x is e, sensitive=False) is None:
+                continue
+            n += 1
+            key = dstr({'k': 'call', 'name': e.get('name'), 'args': e.get('args')})
+            resvars = set()
+            for x in f.blocks[e['_b']]['ev']:
+                if x.get('k') in ('asg', 'decl') and (x.get('k') == 'decl' or x.get('op') == '='):
+                    r = x.get('r') if x.get('k') == 'asg' else x.get('init')
+                    if any(y.get('k') == 'call' and y.get('name') == e.get('name') and y.get('line', e.get('line')) == e.get('line')
+                           for y in walk(r)) or (isinstance(strip(r), dict) and strip(r).get('k') == 'call' and strip(r).get('name') == e.get('name')):
+                        l = strip(x.get('l')) if x.get('k') == 'asg' else {'k': 'var', 'n': x.get('n')}
+                        if isinstance(l, dict) and l.get('k') == 'var':
+                            resvars.add(l['n'])
+
+            def observes(atom):
+                if mentions_call(atom, 'ferror'):
+                    return True
+                if any(y.get('k') == 'call' and y.get('name') == e.get('name') for y in walk(atom)):
+                    return True
+                return any(mentions_var(atom, v) for v in resvars)
+
+            def edge_ok(b, i, s2):
+                return not any(observes(atom) for k, pol, atom in f.edge_facts(b, i))
+            r = f.find_path(e, lambda x: x is e, sensitive=False, edge_ok=edge_ok)
+            ok = r is None
+            if control:
+                bad += 0 if ok else 1
+                continue
+            ctx.check(rid, ok, f.name, 'read-loop:result-not-observed:%s' % e.get('name'), f.where(e),
+                      'the loop around %s() leaves (or goes on) depending on what the read returned' % e.get('name'),
+                      witness=None if ok else {'blocks': r[0]})
+    return bad if control else n
+
+
 TB3_EXEMPT = {
     'MountPoint::parse': '/proc/self/mountinfo (cgroup CPU limit detection): not among the inputs of C13',
     'CGroupSubSys::parse': '/proc/self/cgroup: not among the inputs of C13',
@@ -569,6 +718,12 @@ def run(ctx):
             rule_tb2(ctx, fx, 'C13.TB1', [fx.fn('nvctl::BoundedReadLength')], control=True) != 0:
         raise AnalysisBroken('TB2 control failed')
     ctx.inst('C13.TB1', 'fixtures/controls.cc', 'controls: nvctl::UnboundedFormattedLength fires, nvctl::BoundedReadLength is silent')
+    nf = rule_fmt(ctx, prog, 'C13.TB1', [f for f in prog.functions.values() if not f.file.startswith('third_party')])
+    if rule_fmt(ctx, fx, 'C13.TB1', [fx.fn('nvctl::DataAsFormat')], control=True) != 1 or \
+            rule_fmt(ctx, fx, 'C13.TB1', [fx.fn('nvctl::DataAsArgument')], control=True) != 0:
+        raise AnalysisBroken('format control failed')
+    ctx.inst('C13.TB1', 'fixtures/controls.cc', 'controls: nvctl::DataAsFormat fires, nvctl::DataAsArgument is silent')
+    ctx.check('C13.TB1', nf >= 200, 'printf-like calls', 'format:sites', 'src', '%d printf-like call sites examined' % nf)
     ctx.check('C13.TB1', nb >= 30, 'buffer+length', 'buffer-length:sites', 'src', '%d (local array, length) call sites examined' % nb)
     n3 = rule_tb3(ctx, prog, 'C13.TB1', [f for f in prog.functions.values() if not f.file.startswith('third_party')])
     if rule_tb3(ctx, fx, 'C13.TB1', [fx.fn('nvctl::UnderflowingPosition')], control=True) < 1 or \
@@ -674,6 +829,12 @@ def run(ctx):
     cw = [w for h, line, cb, w in loopprog.input_driven_loops(fx, fx.fn('nvctl::SkipsRead'))]
     if not (cw and cw[0] is not None):
         raise AnalysisBroken('L1 input-loop control failed: %s' % cw)
+    nrl = rule_read_loops(ctx, prog, 'C13.L1', [f for f in prog.functions.values() if not f.file.startswith('third_party')])
+    if rule_read_loops(ctx, fx, 'C13.L1', [fx.fn('nvctl::SlurpIgnoringErrors')], control=True) != 1 or \
+            rule_read_loops(ctx, fx, 'C13.L1', [fx.fn('nvctl::SlurpUntilShortRead')], control=True) != 0:
+        raise AnalysisBroken('read-loop control failed')
+    ctx.inst('C13.L1', 'fixtures/controls.cc', 'controls: nvctl::SlurpIgnoringErrors fires, nvctl::SlurpUntilShortRead is silent')
+    ctx.check('C13.L1', nrl >= 3, 'stream read loops', 'read-loop:count', 'src', '%d stream reads inside loops examined' % nrl)
     ctx.check('C13.L1', nid >= 20, 'input-driven loops', 'input-loop:count', 'src', '%d input-driven loops examined' % nid)
     ctx.floor('C13.L1', 66)
 
